@@ -48,7 +48,7 @@ def reference(kind, blob):
         return False, b''
 
 
-def emit(kind, blob, payload_name, payload, cls, expect_ok=None):
+def emit(kind, blob, payload_name, payload, cls, expect_ok=None, status='intact'):
     """write one case; the expectation comes from the reference decompressor"""
     global nfile
     ok, ref = reference(kind, blob)
@@ -66,7 +66,7 @@ def emit(kind, blob, payload_name, payload, cls, expect_ok=None):
     nfile += 1
     with open(os.path.join(outdir, name), 'wb') as fh:
         fh.write(blob)
-    cases.append('%s\t%s\t%s\t%d\t%s' % (name, 'gzip' if kind == 'gz' else 'bzip2', payload_name, explen, cls))
+    cases.append('%s\t%s\t%s\t%d\t%s\t%s' % (name, 'gzip' if kind == 'gz' else 'bzip2', payload_name, explen, cls, status))
 
 
 def make_payload(k, n, entropy):
@@ -177,7 +177,7 @@ for kind in ('gz', 'bz2'):
                 o += len(pc)
                 bounds.append(o)
             # truncations
-            if len(blob) <= 4096:
+            if len(blob) <= 4096 and (thorough or len(blob) <= 400):
                 cuts = range(0, len(blob))
             else:
                 cuts = set(rng.randrange(0, len(blob)) for _ in range(600 if thorough else 60))
@@ -186,17 +186,37 @@ for kind in ('gz', 'bz2'):
                         if 0 <= bnd + d < len(blob):
                             cuts.add(bnd + d)
                 cuts = sorted(cuts)
+            magic = 2 if kind == 'gz' else 3
+            starts = [0] + bounds[:-1]
             for c in cuts:
-                at_boundary = c in bounds or c == 0
-                emit(kind, blob[:c], pname, pdata, '%s truncated %s (%d stream(s))' % (kind, 'at a stream boundary' if at_boundary else 'inside a stream', nstreams))
+                if c == 0:
+                    continue  # an empty file is not a compressed file at all
+                if c in bounds:
+                    # a complete valid file consisting of the leading streams
+                    emit(kind, blob[:c], pname, pdata, '%s truncated at a stream boundary (%d stream(s))' % (kind, nstreams), status='intact')
+                    continue
+                last = max(b for b in [0] + bounds if b <= c)
+                if last > 0 and c - last < magic:
+                    # fewer bytes than the magic number of the next stream are left: the
+                    # compression libraries treat this as ignorable trailing garbage
+                    emit(kind, blob[:c], pname, pdata, '%s truncated within the magic bytes of a following stream' % kind, status='notjudged')
+                else:
+                    emit(kind, blob[:c], pname, pdata, '%s truncated inside a stream (%d stream(s))' % (kind, nstreams), status='damaged')
             # single byte corruption
             if len(blob) <= 4096 or thorough:
-                offs = range(0, len(blob)) if len(blob) <= 4096 else sorted(set(rng.randrange(0, len(blob)) for _ in range(500)))
+                if len(blob) <= 4096 and (thorough or len(blob) <= 400):
+                    offs = range(0, len(blob))
+                else:
+                    offs = sorted(set(rng.randrange(0, len(blob)) for _ in range(500 if thorough else 80)) | set(x + d for x in starts for d in range(0, 12) if x + d < len(blob)) | set(range(max(0, len(blob) - 10), len(blob))))
                 for off in offs:
                     b = bytearray(blob)
                     b[off] ^= (0x01 if off % 2 else 0x80)
-                    region = 'header' if off < 10 else ('trailer' if off >= len(blob) - 8 else 'body')
-                    emit(kind, bytes(b), pname, pdata, '%s single byte corrupted in the %s of a stream (%d stream(s))' % (kind, region if nstreams == 1 else 'body/any', nstreams))
+                    st = max(x for x in starts if x <= off)
+                    if st > 0 and off - st < (4 if kind == 'bz2' else 2):
+                        emit(kind, bytes(b), pname, pdata, '%s magic bytes of a following stream corrupted (indistinguishable from trailing garbage)' % kind, status='notjudged')
+                        continue
+                    region = 'header' if off - st < 10 else 'body'
+                    emit(kind, bytes(b), pname, pdata, '%s single byte corrupted in the %s of stream %s (%d stream(s))' % (kind, region, 'one' if st == 0 else 'two or later', nstreams), status='damaged')
 
 with open(os.path.join(outdir, 'cases.tsv'), 'w') as fh:
     fh.write('\n'.join(cases) + '\n')
